@@ -109,7 +109,7 @@ ApiRet(a, m, err, f) ==
   /\ UNCHANGED <<cfg, obs, acked>>
 
 Dial(err) ==
-  /\ G("C17", "DialsOnlyWhileStarted", started \/ \E c \in calls : c.m = "stop")
+  /\ G("C17", "DialsOnlyWhileStarted", started \/ \E c \in calls : c.m \in {"stop", "start"})     \* (the supervisor may dial before Start has returned)
   /\ phase' = IF err = "" THEN "dialing" ELSE "offline"
   /\ acked' = FALSE
   /\ UNCHANGED <<started, cmds, subsS, resubId, cfg, calls, obs>>
